@@ -32,7 +32,7 @@ EXTENDS AldorSem, Sequences
 VARIABLES bres,     \* result of the batch run: [o, status, n] (<<>>-valued fields while it is still running)
           phase,    \* "batch" -> "session" -> "end"
           hist,     \* the history so far: <<[k |-> "ok"|"pre"|"bad", j |-> form number / catalogue index, o0 |-> Len(st.o) at entry]>>
-          bseg,     \* batch: Len(st.o) when top-level form number i of P.top started (sequence indexed by i)
+          bseg,     \* batch: the machine when top-level form number i of P.top started: [o |-> Len(st.o), s |-> store, g |-> globals]
           ndiag     \* diagnostics printed so far
 
 rvars == <<pid, mode, st, bres, phase, hist, bseg, ndiag>>
@@ -68,7 +68,7 @@ Item(k, j) == [k |-> k, j |-> j, o0 |-> Len(st.o)]
 BatchStep ==
   /\ phase = "batch" /\ st.status = "run"
   /\ Step
-  /\ bseg' = IF IsVal /\ HasF /\ F.f = "top" THEN Append(bseg, Len(st.o)) ELSE bseg
+  /\ bseg' = IF IsVal /\ HasF /\ F.f = "top" THEN Append(bseg, [o |-> Len(st.o), s |-> st.s, g |-> st.g]) ELSE bseg
   /\ UNCHANGED <<pid, mode, bres, phase, hist, ndiag>>
 BatchDone ==
   /\ phase = "batch" /\ st.status # "run"
@@ -157,7 +157,14 @@ SessionPrefix == phase # "batch" => PrefixOf(st.o, bres.o)
 FormOutputsAlign ==
   phase # "batch" =>
     \A n \in OkIdx : Forms[hist[n].j].k = "t" =>
-        (Forms[hist[n].j].i <= Len(bseg) /\ bseg[Forms[hist[n].j].i] = hist[n].o0)
+        (Forms[hist[n].j].i <= Len(bseg) /\ bseg[Forms[hist[n].j].i].o = hist[n].o0)
+
+(* between two forms the session (store, global environment, amount of output) is exactly the *)
+(* state the batch run had at the same place of the file: the incremental state of the loop     *)
+(* is the state of the whole-file run                                                           *)
+SessionStateEqBatch ==
+  (phase = "session" /\ Between) =>
+    LET i == st.k[1].i IN i <= Len(bseg) /\ bseg[i].s = st.s /\ bseg[i].g = st.g /\ bseg[i].o = Len(st.o)
 
 (* a rejected form leaves the session as it was and prints exactly one diagnostic *)
 RejectKeepsSession ==
